@@ -29,19 +29,19 @@ Retains(h) == grid > 0 /\ h >= 1 /\ (gbase + h) % grid = 0
 IsEvent(e) == l <= Len(Rec) /\ Rec[l].a = e /\ l' = l + 1
 
 \* ---- the logged projection agrees with the (primed) specification state
-RowOf(n) == [n |-> n, mined |-> txs'[ninfo'[n].t].mined, minobs |-> txs'[ninfo'[n].t].minobs,
+RowOf(n) == [n |-> n, acct |-> ninfo'[n].acct, mined |-> txs'[ninfo'[n].t].mined, minobs |-> txs'[ninfo'[n].t].minobs,
              sp |-> { << k[2], txs'[k[2]].mined, txs'[k[2]].minobs >> : k \in { k \in links' : k[1] = n } }]
-LoggedRow(r) == [n |-> r.n, mined |-> r.mined, minobs |-> r.minobs, sp |-> { << s[1], s[2], s[3] >> : s \in SeqToSet(r.sp) }]
+LoggedRow(r) == [n |-> r.n, acct |-> r.acct, mined |-> r.mined, minobs |-> r.minobs, sp |-> { << s[1], s[2], s[3] >> : s \in SeqToSet(r.sp) }]
 
-LedgerP(p)     == FoldSet(LAMBDA n, acc : acc + ninfo'[n].v, 0,
-                     { n \in known' : /\ ninfo'[n].pool = p /\ ninfo'[n].v > Dust
+LedgerP(a, p)  == FoldSet(LAMBDA n, acc : acc + ninfo'[n].v, 0,
+                     { n \in known' : /\ ninfo'[n].pool = p /\ ninfo'[n].acct = a /\ ninfo'[n].v > Dust
                                       /\ (\/ (txs'[ninfo'[n].t].mined # -1 /\ txs'[ninfo'[n].t].mined < tip' + 1)
                                           \/ txs'[ninfo'[n].t].minobs + ExpiryDelta >= tip' + 1)
                                       /\ \A k \in links' : k[1] = n =>
                                             ~(\/ (txs'[k[2]].mined # -1 /\ txs'[k[2]].mined < tip' + 1)
                                               \/ txs'[k[2]].minobs + ExpiryDelta >= tip' + 1) })
-LedgerDustP(p) == FoldSet(LAMBDA n, acc : acc + ninfo'[n].v, 0,
-                     { n \in known' : /\ ninfo'[n].pool = p /\ ninfo'[n].v <= Dust
+LedgerDustP(a, p) == FoldSet(LAMBDA n, acc : acc + ninfo'[n].v, 0,
+                     { n \in known' : /\ ninfo'[n].pool = p /\ ninfo'[n].acct = a /\ ninfo'[n].v <= Dust
                                       /\ (\/ (txs'[ninfo'[n].t].mined # -1 /\ txs'[ninfo'[n].t].mined < tip' + 1)
                                           \/ txs'[ninfo'[n].t].minobs + ExpiryDelta >= tip' + 1)
                                       /\ \A k \in links' : k[1] = n =>
@@ -92,21 +92,21 @@ PostAgrees(post) ==
             /\ { LoggedRow(post.notes[i]) : i \in DOMAIN post.notes } = { RowOf(n) : n \in known' }
             /\ Len(post.notes) = Cardinality(known')
             /\ post.balp =>                 \* no summary is reported while scan progress is not computable: no claim then
-                  /\ post.bal.S = << LedgerP("S"), LedgerDustP("S") >>
-                  /\ post.bal.O = << LedgerP("O"), LedgerDustP("O") >>
-                  /\ post.bal.I = << LedgerP("I"), LedgerDustP("I") >>
+                  \A a \in 1..2 :                      \* for every account and pool
+                     /\ post.bal[a].S = << LedgerP(a, "S"), LedgerDustP(a, "S") >>
+                     /\ post.bal[a].O = << LedgerP(a, "O"), LedgerDustP(a, "O") >>
+                     /\ post.bal[a].I = << LedgerP(a, "I"), LedgerDustP(a, "I") >>
        /\ (IOEnv.CHECK_LOCKS = "1" /\ "locks" \in DOMAIN post) =>   \* C08: lock state as stored, and as the API reports it
              /\ { << r[1], r[2], r[3] >> : r \in SeqToSet(post.locks.rows) } = { << n, locks'[n][1], locks'[n][2] >> : n \in DOMAIN locks' }
-             /\ (tip' # -1 => SeqToSet(post.locks.api) = { n \in DOMAIN locks' : locks'[n][2] >= tip' + 1 })
+             /\ (tip' # -1 => SeqToSet(post.locks.api) = { n \in DOMAIN locks' : locks'[n][2] >= tip' + 1 /\ ninfo'[n].acct = 1 })   \* of the queried account
        /\ (IOEnv.CHECK_TREES = "1") => TreesOK(post.trees, scanned', taint', covered', lostOK')
 
 \* EXPLAIN=1 (debugging aid): a disagreeing projection is printed and the trace continues
 PostOK(post) == \/ PostAgrees(post)
                 \/ /\ IOEnv.EXPLAIN = "1"
                    /\ PrintT(<< "EXPLAIN", l, [tip |-> tip', scanned |-> scanned', rows |-> { RowOf(n) : n \in known' },
-                                               S |-> << LedgerP("S"), LedgerDustP("S") >>,
-                                               O |-> << LedgerP("O"), LedgerDustP("O") >>,
-                                               I |-> << LedgerP("I"), LedgerDustP("I") >>] >>)
+                                               b1 |-> << LedgerP(1, "S"), LedgerDustP(1, "S"), LedgerP(1, "O"), LedgerDustP(1, "O"), LedgerP(1, "I"), LedgerDustP(1, "I") >>,
+                                               b2 |-> << LedgerP(2, "S"), LedgerDustP(2, "S"), LedgerP(2, "O"), LedgerDustP(2, "O"), LedgerP(2, "I"), LedgerDustP(2, "I") >>] >>)
 
 TReset == /\ IsEvent("reset")
           /\ chain' = << >> /\ top' = 0 /\ scanned' = {} /\ txs' = << >> /\ known' = {}
@@ -175,19 +175,20 @@ TTrunc == /\ IsEvent("trunc") /\ UNCHANGED locks /\ UNCHANGED sugg
 \* a second, fresh wallet scanned the whole current chain once in height order: whenever the wallet
 \* under test has scanned everything up to the tip, its mined notes, their mined spenders and the
 \* balance they imply are identical (orphans of a rewind are the stated exception)
-MinedRow(n) == [n |-> n, mined |-> txs[ninfo[n].t].mined,
+MinedRow(n) == [n |-> n, acct |-> ninfo[n].acct, mined |-> txs[ninfo[n].t].mined,
                 sp |-> { k[2] : k \in { k \in links : k[1] = n /\ txs[k[2]].mined # -1 } }]
-FreshRow(r) == [n |-> r.n, mined |-> r.mined, sp |-> { s[1] : s \in SeqToSet(r.sp) }]
-MinedBal(p, dust) == FoldSet(LAMBDA n, acc : acc + ninfo[n].v, 0,
-                        { n \in known : /\ ninfo[n].pool = p /\ txs[ninfo[n].t].mined # -1
+FreshRow(r) == [n |-> r.n, acct |-> r.acct, mined |-> r.mined, sp |-> { s[1] : s \in SeqToSet(r.sp) }]
+MinedBal(a, p, dust) == FoldSet(LAMBDA n, acc : acc + ninfo[n].v, 0,
+                        { n \in known : /\ ninfo[n].pool = p /\ ninfo[n].acct = a /\ txs[ninfo[n].t].mined # -1
                                          /\ (IF dust THEN ninfo[n].v <= Dust ELSE ninfo[n].v > Dust)
                                          /\ \A k \in links : k[1] = n => txs[k[2]].mined = -1 })
 TFresh == /\ IsEvent("fresh")
           /\ scanned = 1..top /\ tip = top
           /\ { FreshRow(Rec[l].notes[i]) : i \in DOMAIN Rec[l].notes } = { MinedRow(n) : n \in { n \in known : txs[ninfo[n].t].mined # -1 } }
-          /\ Rec[l].balp => /\ Rec[l].bal.S = << MinedBal("S", FALSE), MinedBal("S", TRUE) >>
-                            /\ Rec[l].bal.O = << MinedBal("O", FALSE), MinedBal("O", TRUE) >>
-                            /\ Rec[l].bal.I = << MinedBal("I", FALSE), MinedBal("I", TRUE) >>
+          /\ Rec[l].balp => \A a \in 1..2 :
+                               /\ Rec[l].bal[a].S = << MinedBal(a, "S", FALSE), MinedBal(a, "S", TRUE) >>
+                               /\ Rec[l].bal[a].O = << MinedBal(a, "O", FALSE), MinedBal(a, "O", TRUE) >>
+                               /\ Rec[l].bal[a].I = << MinedBal(a, "I", FALSE), MinedBal(a, "I", TRUE) >>
           /\ UNCHANGED wvars /\ UNCHANGED cvars /\ UNCHANGED locks /\ UNCHANGED sugg
 
 \* C15: suggest_scan_ranges returns exactly the queue entries of priority Historic or above, highest priority
@@ -219,6 +220,7 @@ Acquirable(n, owner) == IF n \in DOMAIN locks THEN (locks[n][2] <= tip \/ locks[
 SumSeq(sq) == FoldSet(LAMBDA i, acc : acc + sq[i], 0, DOMAIN sq)
 Eligible(n, v, target, anchor, minconf, admitted) ==
     /\ n \in known /\ ninfo[n].v = v
+    /\ ninfo[n].acct = 1                                                        \* belongs to the requested account
     /\ v > Dust
     /\ txs[ninfo[n].t].mined # -1 /\ txs[ninfo[n].t].mined <= anchor          \* mined, at or below the anchor
     /\ target - txs[ninfo[n].t].mined >= (IF ninfo[n].int THEN minconf[1] ELSE minconf[2])   \* confirmations: the trusted count for the
@@ -243,7 +245,7 @@ ProposalOK(r) ==
                   /\ \A j \in DOMAIN st.inputs : Eligible(st.inputs[j][1], st.inputs[j][2], target, st.anchor, minconf, SeqToSet(r.admitted))
                   /\ st.in_total = SumSeq([j \in DOMAIN st.inputs |-> st.inputs[j][2]])
                   /\ st.tin = 0 /\ st.prior = 0 => st.in_total = st.pay + SumSeq(st.change) + st.fee     \* balances exactly
-        /\ p.steps[1].pay = r.amount
+        /\ (r.max = "no" => p.steps[1].pay = r.amount)
 TPropose == /\ IsEvent("propose")
             /\ \/ Rec[l].res = "ok" /\ ProposalOK(Rec[l])
                \/ /\ Rec[l].res = "inputs-locked"       \* only a policy that spends through another owner's lock can lose the race
@@ -251,6 +253,7 @@ TPropose == /\ IsEvent("propose")
                   /\ \E n \in DOMAIN locks : locks[n][1] \in SeqToSet(Rec[l].admitted) /\ ~Acquirable(n, Rec[l].lock[1])
                   /\ UNCHANGED locks
                \/ Rec[l].res \in {"insufficient", "scan-required"} /\ UNCHANGED locks      \* refusals: no claim
+               \/ Rec[l].res = "refused" /\ Rec[l].max # "no" /\ UNCHANGED locks           \* send-max refusals (e.g. unspendable funds): no claim
             /\ UNCHANGED wvars /\ UNCHANGED cvars /\ UNCHANGED sugg
             /\ PostOK(Rec[l].post)
 TLock == /\ IsEvent("lock")
@@ -267,8 +270,9 @@ TUnlock == /\ IsEvent("unlock") /\ Rec[l].res = "ok"
            /\ UNCHANGED wvars /\ UNCHANGED cvars /\ UNCHANGED sugg
            /\ PostOK(Rec[l].post)
 TClear == /\ IsEvent("clearlocks") /\ Rec[l].res = "ok"
-          /\ Rec[l].count = Cardinality(DOMAIN locks)
-          /\ locks' = << >>
+          /\ LET mine == { n \in DOMAIN locks : ninfo[n].acct = 1 }        \* clear_locked_outputs is per account
+             IN  /\ Rec[l].count = Cardinality(mine)
+                 /\ locks' = [n \in DOMAIN locks \ mine |-> locks[n]]
           /\ UNCHANGED wvars /\ UNCHANGED cvars /\ UNCHANGED sugg
           /\ PostOK(Rec[l].post)
 
